@@ -140,6 +140,14 @@ Theorem C13_restore : forall W W' D numb p order,
 Proof. exact P_restore. Qed.
 Print Assumptions C13_restore.
 
+(* sync is idle on a consistent world (the second of two consecutive syncs changes nothing, asks the numberer for nothing);
+   with restricted neighbour hints / forgotten neighbours / hand-grown pairs a further round MAY still spread knowledge *)
+Theorem C13_sync_idempotent : forall W numb p order, consistent W ->
+  (forall s, In s order <-> In s (map fst (c13_ri (c13_proc_of W p)))) ->
+  exists ptrs, c13_sync_rank c13_fixed numb W p order = C13Ok (c13_iset (c13_proc_of W p)) (c13_ri (c13_proc_of W p)) ptrs.
+Proof. exact P_sync_idempotent. Qed.
+Print Assumptions C13_sync_idempotent.
+
 (* (kept from the first round) the local form of restore for one neighbour p that still lists one copy of q, under
    the weaker per-rank hypotheses; subsumed by C13_restore for consistent worlds *)
 Theorem C13_restore_partial : forall numb w p q order iset' ri' ptrs l e,
